@@ -43,7 +43,22 @@ func main() {
 	seed := flag.Int64("seed", 1, "seed")
 	G := flag.Int("g", 16, "goroutines")
 	N := flag.Int("n", 200, "operations per goroutine and task")
+	onlyFlag := flag.String("only", "", "comma-separated substrings: keep only the tasks / sections whose name contains one of them")
 	flag.Parse()
+	if *onlyFlag == "" {
+		*onlyFlag = os.Getenv("RACE_ONLY")
+	}
+	selected := func(name string) bool {
+		if *onlyFlag == "" {
+			return true
+		}
+		for _, o := range strings.Split(*onlyFlag, ",") {
+			if o != "" && strings.Contains(name, o) {
+				return true
+			}
+		}
+		return false
+	}
 	r := rand.New(rand.NewSource(*seed))
 	inputs := make([][]byte, 64)
 	for i := range inputs {
@@ -162,7 +177,55 @@ func main() {
 	// cold start: keys as they come off the wire (key_ops is a []any, nothing has touched the map yet), fresh per
 	// round, hit by all goroutines at once through the factories before any sequential call
 	coldBad := 0
-	{
+	// cold start of an ECDHer: a fresh object per round, all goroutines at once, four different remote keys — every
+	// answer must be the secret for the remote it was asked about (computed on another fresh object)
+	if selected("ecdh-cold") {
+		bad := 0
+		for _, crv := range []int{iana.EllipticCurveP_256, iana.EllipticCurveP_384, iana.EllipticCurveP_521, iana.EllipticCurveX25519} {
+			local := must(ecdh.GenerateKey(crv))
+			var remotes []key.Key
+			var want [][]byte
+			ref := must(ecdh.NewECDHer(local))
+			for j := 0; j < 4; j++ {
+				pk := must(ecdh.ToPublicKey(must(ecdh.GenerateKey(crv))))
+				remotes = append(remotes, pk)
+				want = append(want, must(ref.ECDH(pk)))
+			}
+			rounds := *N / 4
+			if rounds < 10 {
+				rounds = 10
+			}
+			for rd := 0; rd < rounds; rd++ {
+				e := must(ecdh.NewECDHer(local))
+				var wg sync.WaitGroup
+				var mu sync.Mutex
+				start := make(chan struct{})
+				for g := 0; g < *G; g++ {
+					wg.Add(1)
+					go func(g int) {
+						defer wg.Done()
+						<-start
+						for j := 0; j < 4; j++ {
+							i := (g + j) % 4
+							got, err := e.ECDH(remotes[i])
+							if err != nil || !bytes.Equal(got, want[i]) {
+								mu.Lock()
+								bad++
+								mu.Unlock()
+							}
+						}
+					}(g)
+				}
+				close(start)
+				wg.Wait()
+			}
+		}
+		if bad > 0 {
+			fmt.Printf("MISMATCH task=ecdh-cold count=%d\n", bad)
+			coldBad += bad
+		}
+	}
+	if selected("cold-factories") {
 		kh := must(hmac.GenerateKey(iana.AlgorithmHMAC_256_256))
 		kh.SetOps(iana.KeyOperationMacCreate, iana.KeyOperationMacVerify)
 		kg := must(aesgcm.GenerateKey(iana.AlgorithmA128GCM))
@@ -294,10 +357,10 @@ func main() {
 		}})
 	}
 
-	if only := os.Getenv("RACE_ONLY"); only != "" { // development aid: keep the tasks whose name contains the string
+	if *onlyFlag != "" {
 		var keep []task
 		for _, t := range tasks {
-			if strings.Contains(t.name, only) {
+			if selected(t.name) {
 				keep = append(keep, t)
 			}
 		}
